@@ -1,0 +1,20 @@
+// Copyright IBM Corp. 2020, 2025
+// SPDX-License-Identifier: MPL-2.0
+
+//go:build verif
+
+// Package verifhook provides schedule points for deterministic simulation
+// testing. With the `verif` build tag a simulator may install Yield to be
+// called at every named point.
+package verifhook
+
+// Yield, if non-nil, is called at every schedule point. It must be set before
+// any code under test runs and never changed afterwards.
+var Yield func(point, key string)
+
+// At marks a named schedule point.
+func At(point, key string) {
+	if Yield != nil {
+		Yield(point, key)
+	}
+}
